@@ -5,6 +5,9 @@
 (*   <<"def", label>>   the definition  [^label]: text                                      *)
 (*   <<"hr", "-">>      a thematic break written by the author                              *)
 (*   <<"head", label>>  a heading whose title (hence docutils name) is the label            *)
+(*   <<"qdef", label>>  a block quote that holds the definition; <<"nref", label>> a note    *)
+(*                      directive whose body holds the reference (containers: the registries *)
+(*                      are the document's, whatever the nesting)                            *)
 (* labels are strings; the numeric ones ("1", "2", ...) are manually numbered.              *)
 (* M: the render actions (render_footnote_ref / render_footnote_reference with its          *)
 (* duplicate check against document.nameids) and then the transform chain in priority       *)
@@ -12,7 +15,8 @@
 (* UnreferencedFootnotesDetector, CollectFootnotes.  S: the declarative clauses below.      *)
 EXTENDS Naturals, Sequences, FiniteSets, TLC, Json
 
-CONSTANTS Labels, MaxEv, WithHr, WithHead
+CONSTANTS Labels, MaxEv, WithHr, WithHead,
+          WithNested      \* also <<"qdef", l>>: the definition inside a block quote, <<"nref", l>>: the reference inside a note directive
 
 NumOf(l) == CASE l = "1" -> 1 [] l = "2" -> 2 [] l = "3" -> 3 [] l = "4" -> 4 [] l = "5" -> 5
               [] l = "6" -> 6 [] l = "7" -> 7 [] l = "8" -> 8 [] l = "9" -> 9 [] l = "10" -> 10
@@ -20,6 +24,9 @@ NumOf(l) == CASE l = "1" -> 1 [] l = "2" -> 2 [] l = "3" -> 3 [] l = "4" -> 4 []
 IsNum(l) == NumOf(l) > 0
 EvVocab == {<<k, l>> : k \in {"ref", "def"}, l \in Labels} \cup (IF WithHr THEN {<<"hr", "-">>} ELSE {})
            \cup (IF WithHead THEN {<<"head", l>> : l \in {x \in Labels : ~IsNum(x)}} ELSE {})
+           \cup (IF WithNested THEN {<<k, l>> : k \in {"qdef", "nref"}, l \in Labels} ELSE {})
+IsRefEv(e) == e[1] \in {"ref", "nref"}
+IsDefEv(e) == e[1] \in {"def", "qdef"}
 Arrangements == UNION {[1..n -> EvVocab] : n \in 0..MaxEv}
 
 VARIABLES evs, sort, trans,     \* the input: arrangement, footnote_sort, footnote_transition
@@ -42,11 +49,11 @@ DefOf(l) == CHOOSE k \in 1..Len(defs) : defs[k].l = l
 RefsTo(l) == {r \in 1..Len(refs) : refs[r].l = l}
 
 (* ---- render ---- *)
-RenderRef == /\ pc = "render" /\ pos <= Len(evs) /\ evs[pos][1] = "ref"
+RenderRef == /\ pc = "render" /\ pos <= Len(evs) /\ IsRefEv(evs[pos])
              /\ refs' = Append(refs, [l |-> evs[pos][2], at |-> pos])
              /\ pos' = pos + 1
              /\ UNCHANGED <<evs, sort, trans, pc, defs, dupw, autos, num, unrefw, final>>
-RenderDef == /\ pc = "render" /\ pos <= Len(evs) /\ evs[pos][1] = "def"
+RenderDef == /\ pc = "render" /\ pos <= Len(evs) /\ IsDefEv(evs[pos])
              /\ IF evs[pos][2] \in DefLabels                    \* target in document.nameids
                 THEN dupw' = dupw \cup {pos} /\ UNCHANGED <<defs, autos, num>>
                 ELSE /\ defs' = Append(defs, [l |-> evs[pos][2], at |-> pos])
@@ -95,6 +102,8 @@ DetectStep == /\ pc = "detect"
 (* ---- CollectFootnotes ---- *)
 Original == [k \in 1..Len(evs) |->
                IF evs[k][1] = "ref" THEN <<"p", k>>
+               ELSE IF evs[k][1] = "nref" THEN <<"n", k>>
+               ELSE IF evs[k][1] = "qdef" THEN <<"q", k, IF k \in dupw THEN "warn" ELSE "fn">>     \* the quote and what it holds
                ELSE IF evs[k][1] = "hr" THEN <<"h", k>>
                ELSE IF evs[k][1] = "head" THEN <<"s", k>>
                ELSE IF k \in dupw THEN <<"w", k>>
@@ -104,7 +113,9 @@ OrderByNum(S) == IF S = {} THEN <<>>
                  ELSE LET m == CHOOSE x \in S : \A y \in S : num[x] <= num[y] IN <<m>> \o OrderByNum(S \ {m})
 CollectStep == /\ pc = "collect"
                /\ final' = IF ~sort THEN Original
-                           ELSE LET others == SelectSeq(Original, LAMBDA it : it[1] # "f")
+                           ELSE LET moved == [k \in 1..Len(Original) |-> IF Original[k][1] = "q" /\ Original[k][3] = "fn"
+                                                                           THEN <<"q", Original[k][2], "empty">> ELSE Original[k]]   \* the footnote leaves its quote
+                                    others == SelectSeq(moved, LAMBDA it : it[1] # "f")
                                     fns == OrderByNum(1..Len(defs))
                                 IN others
                                    \o (IF trans /\ defs # <<>> /\ others # <<>> /\ others[Len(others)][1] # "h"
@@ -123,9 +134,9 @@ RefView == [r \in 1..Len(refs) |->
 
 (************************************ S ************************************************)
 (* declaratively, from the arrangement alone *)
-SDefAt == {k \in 1..Len(evs) : evs[k][1] = "def" /\ \A j \in 1..(k - 1) : ~(evs[j][1] = "def" /\ evs[j][2] = evs[k][2])}   \* (a heading is no definition)
-SDupAt == {k \in 1..Len(evs) : evs[k][1] = "def"} \ SDefAt
-SRefAt(l) == {k \in 1..Len(evs) : evs[k] = <<"ref", l>>}
+SDefAt == {k \in 1..Len(evs) : IsDefEv(evs[k]) /\ \A j \in 1..(k - 1) : ~(IsDefEv(evs[j]) /\ evs[j][2] = evs[k][2])}   \* (a heading is no definition)
+SDupAt == {k \in 1..Len(evs) : IsDefEv(evs[k])} \ SDefAt
+SRefAt(l) == {k \in 1..Len(evs) : IsRefEv(evs[k]) /\ evs[k][2] = l}
 KeepFirst == Done => /\ {defs[d].at : d \in 1..Len(defs)} = SDefAt     \* first definition kept, no text lost
                      /\ dupw = SDupAt                                     \* exactly one warning per duplicate
 LabelsDistinct == Done => \A a, c \in 1..Len(defs) : a # c => num[a] # num[c] /\ num[a] > 0
@@ -155,7 +166,9 @@ Collected == (Done /\ sort) =>
      /\ Cardinality({k \in 1..n : final[k] = <<"t">>}) <= 1
      /\ (\E k \in 1..n : final[k] = <<"t">>) => (trans /\ final[n - nf] = <<"t">>)   \* only there, only when configured
      /\ \A k \in 1..(n - 1) : ~(final[k][1] \in {"t", "h"} /\ final[k + 1][1] \in {"t", "h"} /\ final[k + 1] = <<"t">>)   \* never adjacent to another
-     /\ SelectSeq(final, LAMBDA it : it[1] \in {"p", "w", "h", "s"}) = SelectSeq(Original, LAMBDA it : it[1] # "f")
+     /\ LET KA(sq) == [k \in 1..Len(sq) |-> <<sq[k][1], sq[k][2]>>] IN               \* every other block stays where it was
+        KA(SelectSeq(final, LAMBDA it : it[1] \in {"p", "w", "h", "s", "n", "q"})) = KA(SelectSeq(Original, LAMBDA it : it[1] # "f"))
+     /\ \A k \in 1..n : final[k][1] = "q" => final[k][3] # "fn"                       \* no definition is left behind in a container
 InPlace == (Done /\ ~sort) => final = Original
 Terminates == <>Done
 
